@@ -109,6 +109,14 @@ def callnestcase(k):
     return "def g(a: i64, b: i64): i64 { a + b }\ndef f(x: i64, c: Color): i64 { %s }\n" % e
 
 
+def seqlabel(k):
+    """k sequenced labels of integer type, each reached on two paths (goto and fall-through), followed by further code"""
+    body = ["let x0: i64 = x;"]
+    for i in range(1, k + 1):
+        body.append("let x%d: i64 = label a%d { if x%d == %d { goto a%d (%d) } else { x%d + %d } };" % (i, i, i - 1, i, i, i, i - 1, i))
+    return "def f(x: i64): i64 { %s println_i64(x%d); x%d }\n" % (" ".join(body), k, k)
+
+
 def codata(k):
     body = []
     for i in range(k):
@@ -147,6 +155,7 @@ FAMILIES = {
     "nestcase": (nestcase, "f(arg, Cons(arg, Nil))"),
     "letcase": (letcase, "f(arg)"),
     "letcallcase": (letcallcase, "f(arg)"),
+    "seqlabel": (seqlabel, "f(arg)"),
     "callnest": (callnest, "f(arg)"),
     "callnestcase": (callnestcase, "f(arg, Blue)"),
     "closedif": (closedif, None),      # the family IS main (only main has no return covariable)
